@@ -142,12 +142,12 @@ Qed.
 
 (** ---- the local conditions of the walks, for every node kind ---- *)
 Lemma f1_conds (t : T) g pl R0 : Rep t g pl -> Desc g pl R0 -> rallr f1_ok R0 ->
-  (forall y, y < N.of_nat (length pl) -> In y (rnodes R0)) ->
+  (forall y a, pget pl y = Some a -> y_op a <> opFreed -> In y (rnodes R0)) ->
   forall y a, pget pl y = Some a -> y_op a <> opFreed ->
   merge_ok 1 a /\ defer_ok 1 a /\ reloc_ok g pl 1 y a /\ nonnamed_ok g 1 y a /\ calls_ok g 1 y a.
 Proof.
-  intros H HD Hok Hall y a Hy _.
-  destruct (rallr_lookup g pl f1_ok R0 HD Hok y (Hall y (pget_lt _ _ _ Hy))) as (a' & ks & Dy & Oy).
+  intros H HD Hok Hall y a Hy Hly.
+  destruct (rallr_lookup g pl f1_ok R0 HD Hok y (Hall y a Hy Hly)) as (a' & ks & Dy & Oy).
   destruct (Desc_inv _ _ _ _ _ Dy) as (Py & Ky & Dks). assert (a' = a) by congruence. subst a'.
   assert (Hcalls : forall (P : Prop), P -> (negb (y_op a =? aml_pOpIntNamePathOrMethodCall) || negb (y_th a =? 1) = true) -> nonnamed_ok g 1 y a ->
             P /\ nonnamed_ok g 1 y a /\ calls_ok g 1 y a) by (intros P HP Hc Hn; split; [exact HP|split; [exact Hn|split; assumption]]).
@@ -354,7 +354,7 @@ Proof.
   assert (Hp0 : pget pl2 0 = Some (scope_pay 0 [92; 0; 0; 0])) by (apply (Desc_inv _ _ _ _ _ D2)).
   eapply wp_conseq.
   { apply (rest_generic fuel (with_tree (after_first t1 [] 1 data) t2) g2 pl2 (root_tree its) _ H2 D2 eq_refl Hp0 ltac:(discriminate)).
-    - apply (f1_conds t2 g2 pl2 (root_tree its) H2 D2 (root_tree_ok its Hok)). intros y Hy. apply root_tree_nodes. lia.
+    - apply (f1_conds t2 g2 pl2 (root_tree its) H2 D2 (root_tree_ok its Hok)). intros y a Hy _. apply root_tree_nodes. pose proof (pget_lt _ _ _ Hy). lia.
     - reflexivity.
     - reflexivity.
     - reflexivity.
